@@ -26,6 +26,82 @@ K_MAP = "map_:mapped-calls"
 # ---------------------------------------------------------------- the task family
 _T = None
 RECEIVED: list = []
+COUNTER = [0]
+IMPURE_FORMS = ["getitem", "add", "cond", "seq", "list", "dict", "direct", "catch"]
+
+
+def impure_n(form, v):
+    """The number drawn by the isample() call whose result flowed into the value `v` a consumer received."""
+    if form in ("getitem", "cond", "seq", "catch"):
+        return v
+    if form == "add":
+        return v - 1
+    if form == "list":
+        return v[0]
+    if form == "dict":
+        return v["a"] - 1
+    if form == "direct":
+        return v["n"]
+    raise AssertionError(form)
+
+
+def check_impure(executions):
+    """executions: list of stage lists [(label, form)], run as successive executions on ONE backend object.
+    Every iconsume argument `v` must be linked to exactly the isample call node(s) whose recorded result is
+    the number that flowed into the value received.  Returns [(key, what)]."""
+    from redun import Scheduler
+    from redun.backends.db import Argument, CallNode
+    logging.getLogger("redun").setLevel(logging.CRITICAL)
+    t = tasks()
+    backend = fresh_backend()
+    bad = []
+    forms = {}
+    for stages in executions:
+        for label, form in stages:
+            forms[label] = form
+        s = Scheduler(backend=backend)
+        s.logger.setLevel(logging.CRITICAL)
+        s.run(t["imain"]([list(x) for x in stages]))
+    sess = backend.session
+    sess.expire_all()
+    nodes = {c.call_hash: c for c in sess.query(CallNode).all()}
+    seen = set()
+    for arg in sess.query(Argument).all():
+        node = nodes.get(arg.call_hash)
+        if node is None or node.task_name != NS + ".iconsume" or arg.arg_position != 1:
+            continue
+        label = [a.value_parsed for a in node.arguments if a.arg_position == 0][0]
+        seen.add(label)
+        form = forms[label]
+        received = arg.value_parsed
+        want = impure_n(form, received)
+        linked = [nodes[r.result_call_hash] for r in arg.arg_results if r.result_call_hash in nodes]
+        got = sorted(c.value.value_parsed["n"] for c in linked if c.task_name == NS + ".isample")
+        if want not in got:
+            bad.append((f"impure:missing-producer:{form}",
+                        f"iconsume({label!r}, {received!r}) [{form}]: argument v is not linked to the isample() call that "
+                        f"returned {{'n': {want}}}; linked isample results: {got}"))
+        if any(n != want for n in got):
+            bad.append((f"impure:wrong-producer:{form}",
+                        f"iconsume({label!r}, {received!r}) [{form}]: argument v is linked to isample() call(s) that returned "
+                        f"{[n for n in got if n != want]}, not (only) the call whose result {want} flowed into the value"))
+    for label in forms:
+        if label not in seen:
+            bad.append(("impure:not-recorded", f"no iconsume call recorded for stage {label!r}"))
+    return bad
+
+
+def gen_impure(rng, forms):
+    """1-2 executions of 2-4 stages; labels unique over the history, forms repeated on purpose."""
+    execs, k = [], 0
+    base = rng.choice(forms)
+    for _ in range(rng.choice([1, 2, 2])):
+        stages = []
+        for _ in range(rng.randint(2, 4)):
+            k += 1
+            stages.append((f"s{k}", base if rng.random() < 0.7 else rng.choice(forms)))
+        execs.append(stages)
+    return execs
 
 
 def vsum(c):
@@ -152,7 +228,51 @@ def tasks():
     def main_map(n):
         return sumc(map_(inc, [n, n + 1]), 3)
 
-    _T = {"main": main, "fam": fam, "main_catch_all": main_catch_all, "main_map": main_map}
+    # equal lazy expressions over an uncached, impure producer under different parent jobs (oracle only):
+    # every isample() call returns a fresh number, so the value a consumer received identifies its producer
+    import threading
+    from redun.task import CacheScope
+    lock = threading.Lock()
+
+    @task(namespace=NS, name="isample", cache_scope=CacheScope.NONE)
+    def isample():
+        with lock:
+            COUNTER[0] += 1
+            return {"n": COUNTER[0] * 100}
+
+    @task(namespace=NS, name="iconsume")
+    def iconsume(label, v):
+        return [label, v]
+
+    def lazy(form):
+        x = isample()["n"]
+        if form == "getitem":
+            return x
+        if form == "add":
+            return x + 1
+        if form == "cond":
+            return cond(1, x, 0)
+        if form == "seq":
+            return seq([x])[0]
+        if form == "catch":
+            return catch(x, ValueError, rec)
+        if form == "list":
+            return [x, 5]
+        if form == "dict":
+            return {"a": x + 1}
+        if form == "direct":
+            return isample()
+        raise AssertionError(form)
+
+    @task(namespace=NS, name="istage")
+    def istage(label, form):
+        return iconsume(label, lazy(form))
+
+    @task(namespace=NS, name="imain")
+    def imain(stages):
+        return [istage(label, form) for label, form in stages]
+
+    _T = {"main": main, "fam": fam, "main_catch_all": main_catch_all, "main_map": main_map, "imain": imain}
     return _T
 
 
@@ -1046,6 +1166,23 @@ class Check(PropertyCheck):
                 else:
                     fkey = f"{key}:{json.dumps(ps)}"[:300]
                 self.findings.append(Finding(fkey, what, {"kind": "history", "programs": ps}))
+        # equal lazy expressions over an uncached impure producer, under different parent jobs and in successive
+        # executions on one backend object (outside the one-level model: decided on the implementation only).
+        # catch is left out as shipped: equal catch expressions of two stages share the backend's catch cache,
+        # which is the known replay defect and depends on which stage runs first.
+        forms = [f for f in IMPURE_FORMS if f != "catch" or info["derive_cached"]]
+        impure = [[[("a", "getitem"), ("b", "getitem")]],
+                  [[("a", "add"), ("b", "cond")], [("c", "add"), ("d", "cond")]],
+                  [[("a", "seq"), ("b", "seq"), ("c", "dict")], [("d", "dict"), ("e", "list"), ("f", "list")]]]
+        for _ in range(25 if self.tier == "quick" else 400):
+            impure.append(gen_impure(self.rng, forms))
+        for execs in impure:
+            self.evaluations += 1
+            self.stat("oracle", "impure-producer")
+            for key, what in check_impure(execs):
+                nf += 1
+                self.findings.append(Finding(f"{key}:{json.dumps(execs)}"[:300], what,
+                                             {"kind": "impure", "executions": execs}))
         # scheduler tasks that create task calls internally (not modelled)
         for key, what in self.internal_calls():
             nf += 1
@@ -1090,6 +1227,13 @@ class Check(PropertyCheck):
                 print("replay:", what)
             if not bad:
                 print("replay: property holds on this history now")
+            return 1 if bad else 0
+        if r.get("kind") == "impure":
+            bad = check_impure([[tuple(x) for x in stages] for stages in r["executions"]])
+            for key, what in bad:
+                print("replay:", what)
+            if not bad:
+                print("replay: property holds on these executions now")
             return 1 if bad else 0
         if r.get("kind") == "internal":
             bad = [b for b in self.internal_calls() if b[0] == r.get("which")]
